@@ -293,6 +293,14 @@ impl Scenario for Stream {
             spec.m = rng.range(16_500, 30_000) as usize;
             n = rng.range(300, 3000) as usize;
         }
+        if spec.kind.is_set() && rng.chance(0.004) {
+            // the Default constructor: must behave like new(default parameters)
+            let (sp, dm) = default_setp();
+            spec.setp = Some(sp);
+            spec.m = dm;
+            spec.use_default = true;
+            n = n.min(60);
+        }
         let mut items = gen_items(rng, n, spec.elem);
         if spec.kind.is_f32_dens() && spec.m <= 16 && rng.chance(0.2) {
             // items known to tie exactly (same bin, same f32 value): the legitimate order dependence of the
@@ -334,6 +342,10 @@ impl Scenario for Stream {
 
     fn execute(&self, plan: &StreamPlan, ctx: &mut Ctx) -> Result<(), Violation> {
         let spec = &plan.spec;
+        decoy_unode(spec);
+        if spec.use_default {
+            ctx.count("fault:node-built-with-default-constructor");
+        }
         let mut node = make_unode(spec);
         let mut delivered: BTreeSet<u64> = BTreeSet::new();
         let mut total = 0usize;
@@ -396,8 +408,10 @@ impl Scenario for Stream {
         assert_eq!(delivered, items, "harness: plan does not deliver exactly its item set");
         ctx.nontrivial = items.len() >= 2 && total >= 2 && ctx.counters.keys().any(|k| k.starts_with("fault:"));
 
-        // canonical delivery on a fresh instance
-        let mut canon = make_unode(spec);
+        // canonical delivery on a fresh instance (always through the explicit constructor)
+        let mut cspec = spec.clone();
+        cspec.use_default = false;
+        let mut canon = make_unode(&cspec);
         let sorted: Vec<u64> = items.iter().copied().collect();
         let ok = canon.chunk(&sorted);
         ctx.check("C04", "slice-call-accepted", ok, || "canonical sketch_slice returned Err".into())?;
